@@ -325,6 +325,7 @@ PROGRAM = '''
 import utype
 from typing import *
 from utype import Schema, DataClass, Field, Options, Rule, Lax
+from datetime import date, datetime, timedelta
 
 class Pos(int, Rule):
     gt = 0
@@ -346,11 +347,17 @@ class Acc(DataClass):
     level: int = Field(ge=Lax(0), default=0)
     peers: List['Acc'] = Field(default_factory=list)
 
+class Ev(Schema):
+    when: date
+    at: Optional[datetime] = None
+    span: timedelta = None
+    n: Union[int, float] = 0
+
 @utype.parse
 def total(items: List['Tag'], *extra: Pos, scale: float = 1.0, **named: Pos) -> float:
     return (sum(t.weight for t in items) + sum(extra) + sum(named.values())) * scale
 '''
-TARGETS = ["Tag", "Node", "Acc", "total", "Pos"]
+TARGETS = ["Tag", "Node", "Acc", "total", "Pos", "Ev"]
 C_INPUTS = {
     "Tag": [{"name": "a"}, {"name": "abcde"}, {"name": 1, "weight": "2"}, {"name": "x", "weight": -1}, {"name": "x", "weight": "abc"}, {}, {"name": ["q"], "weight": [3]}],
     "Node": [{"id": 1}, {"id": "2", "tags": [{"name": "t"}]}, {"id": 0}, {"id": 1, "next": {"id": 2, "next": {"id": 3}}}, {"id": 1, "next": {"id": -1}},
@@ -362,6 +369,10 @@ C_INPUTS = {
               {"args": [[{"name": "toolong"}]], "kwargs": {}}, {"args": [[], -1], "kwargs": {}}, {"args": [[]], "kwargs": {"k": 3, "j": "4"}},
               {"args": [[]], "kwargs": {"k": 0}}, {"args": [], "kwargs": {}}, {"args": ["[]"], "kwargs": {"scale": "x"}}],
     "Pos": [1, "2", 0, -1, "abc", [3], None],
+    # text forms that are read by trying formats / spellings in turn (ambiguous day-month order, timestamps, durations, numbers)
+    "Ev": [{"when": "01/02/2023"}, {"when": "12/25/2023"}, {"when": "25/12/2023"}, {"when": "2023-01-02", "at": "01/02/2023 10:00:00"}, {"when": "02/01/2023", "at": "2023-02-01T10:00:00Z"},
+           {"when": 1577836800, "span": "1 02:03:04"}, {"when": "x"}, {"when": "2023/03/04", "span": "P1DT2H", "n": "1.50"}, {"when": "03/04/2023", "at": "03/04/2023", "n": "7"},
+           {"when": "2023-13-45"}],
 }
 C_OPTIONS = [None, None, None, {"collect_errors": True}, {"no_explicit_cast": True}, {"no_data_loss": True}, {"invalid_values": "exclude"},
              {"invalid_items": "exclude"}, {"ignore_required": True}, {"max_depth": 2}, {"addition": False}, {"case_insensitive": True}, {"mode": "r"}]
@@ -455,6 +466,43 @@ def probe_in_subprocess(probe):
     return tuple(r) if isinstance(r, list) else r
 
 
+def run_d(case):
+    """order independence across fresh interpreters: every (target, input) of the fixed program is parsed in one process in the
+    given order; the outcome of each must be the same whatever came before it (the other orders run in other fresh processes)"""
+    orders = case.get("orders") or ["forward", "reverse"]
+    steps = [{"target": t, "input": i, "options": 0} for t in TARGETS for i in range(len(C_INPUTS[t]))]
+
+    def arrange(kind):
+        if kind == "forward":
+            return list(steps)
+        if kind == "reverse":
+            return list(reversed(steps))
+        if kind.startswith("stride"):
+            k = int(kind[6:])
+            return [steps[(j * k) % len(steps)] for j in range(len(steps))] if len(steps) % k else list(steps)
+        raise HarnessError("bad order")
+    results = {}
+    for kind in orders:
+        seq = arrange(kind)
+        code = ("import sys, json; sys.path.insert(0, %r); sys.path.insert(0, %r); import warnings; warnings.simplefilter('ignore');"
+                "from vf import core; core.setup_paths(); from vf.checks import c19;"
+                "m = c19.load_program(); print(json.dumps([list(c19.do_step(m, s)[:2]) for s in json.loads(sys.argv[1])]))") % (REPO, ROOT)
+        env = dict(os.environ, PYTHONHASHSEED="0", VERIF_REPO=REPO)
+        p = subprocess.run([sys.executable, "-B", "-c", code, json.dumps(seq)], capture_output=True, text=True, timeout=300, env=env, cwd=ROOT)
+        if p.returncode != 0:
+            raise HarnessError("order run failed: " + p.stderr[-300:])
+        outs = json.loads(p.stdout.strip().splitlines()[-1])
+        results[kind] = {(s["target"], s["input"]): o for s, o in zip(seq, outs)}
+    fails = []
+    base = results[orders[0]]
+    for kind in orders[1:]:
+        for key, o in results[kind].items():
+            if o != base[key]:
+                fails.append((f"outcome-depends-on-what-was-parsed-before/{key[0]}", {"input": C_INPUTS[key[0]][key[1]], orders[0]: base[key], kind: o}))
+                break
+    return {"status": "ok", "fails": fails[:3], "nt": True}
+
+
 def c_cases(thorough):
     step = st.fixed_dictionaries({"target": st.sampled_from(TARGETS), "input": st.integers(0, 9), "options": st.integers(0, len(C_OPTIONS) - 1)})
     return st.fixed_dictionaries({"part": st.just("c"), "history": st.lists(step, min_size=1, max_size=8), "probe": step,
@@ -476,6 +524,8 @@ def run_case(case):
                 dspec.cleanup()
         if part == "b":
             return run_b(case)
+        if part == "d":
+            return run_d(case)
         if part == "c":
             return run_c(case)
     except (KeyError, IndexError) as e:
@@ -517,4 +567,9 @@ def campaign(ctx):
                     body({"part": "b", "form": form, "base": base, "default": dv})
         ctx.extra["b_cases"] = n
         ctx.extra["b_exhaustive"] = True
+    # (d) order independence across fresh interpreters (state kept in the library itself is invisible to a re-declaration)
+    if ctx.shard == 1 % ctx.nshards:
+        ctx.ev()
+        body({"part": "d", "orders": ["forward", "reverse", "stride7"] + (["stride11", "stride5"] if ctx.thorough else [])})
+        ctx.extra["d_order_runs"] = 3 if not ctx.thorough else 5
     ctx.run_given(st.one_of(a_cases(ctx.thorough), a_cases(ctx.thorough), c_cases(ctx.thorough)), body, max_examples=ctx.n(1000, 12000))
